@@ -369,6 +369,43 @@ fn probes_after_read(st: &mut Stats, conn: &Conn, stream: &[u8], m: &ModelOut, p
     }
 }
 
+
+fn abstract_conn_state(st: &mut Stats, conn: &Conn, class: u64, res_code: u64, popped: usize) {
+    let sh = conn.sh.borrow();
+    let before = WINDOW.saturating_sub(sh.last_offer);
+    let b = |x: usize| -> u64 {
+        if x <= 1 {
+            x as u64
+        } else if x >= WINDOW - 1 {
+            5
+        } else if x == WINDOW - 2 {
+            4
+        } else if x == WINDOW - 3 {
+            3
+        } else {
+            2
+        }
+    };
+    let g = |x: usize| -> u64 {
+        match x {
+            0 => 0,
+            1 => 1,
+            2..=15 => 2,
+            _ if x >= WINDOW => 4,
+            _ => 3,
+        }
+    };
+    let mut h = crate::rng::Sig::new();
+    h.u(class);
+    h.u(b(before));
+    h.u(g(sh.last_given));
+    h.u(res_code);
+    h.u(popped.min(2) as u64);
+    drop(sh);
+    h.u(conn.c.pending_write() as u64);
+    st.state(h.get());
+}
+
 // ------------------------------------------------------------------- plain driver (C01)
 
 #[derive(Clone, Debug, PartialEq, Eq)]
@@ -427,6 +464,7 @@ pub fn run_plain_mode(case: &ConnCase, sched: &[SOp], m: &ModelOut, st: &mut Sta
         sig.u(structure.class(pos));
         sig.u(res.code());
         sig.u(popped.len() as u64);
+        abstract_conn_state(st, &conn, structure.class(pos), res.code(), popped.len());
         if answer {
             for _ in 0..popped.len() {
                 let (resp, _) = crate::obs::simple_response(1, 200, Some(b"ok"));
@@ -583,6 +621,7 @@ pub fn run_online(
         sig.u(structure.class(pos));
         sig.u(res.code());
         sig.u(popped.len() as u64);
+        abstract_conn_state(st, &conn, structure.class(pos), res.code(), popped.len());
 
         // what the model says became determined by bytes (pos0, pos]
         let mut exp_reqs: Vec<&ReqObs> = Vec::new();
